@@ -35,9 +35,9 @@ KANI = {
 PROP_UNITS = {
     'C13': {'verus': ['int_modadd2', 'int_modmul', 'int_moddiv', 'int_modconv', 'int_modconv_panic'],
             'kani_thorough': ['int_modpow'],
-            'undecided': ['pow: only a bounded Kani stand-in for single-word rings with a one-word exponent (group int_modpow, thorough '
-                          'tier: 160 s / 450 s per harness); two-word exponents run CBMC out of memory, large::pow (windowed) and '
-                          'double-word rings are not covered',
+            'undecided': ['pow: proved unbounded by the Verus units int_modpow_large / _one / _single / _double (registry_d/modpow2.py); the '
+                          'Kani group int_modpow (thorough tier, single-word ring, one-word exponent, 160 s / 450 s per harness) stays as a '
+                          'bounded cross-check of the ASSUMED num_modular Reducer on the real crate',
                           'int_modconv: own trusted mirror of Buffer / TypedRepr / UBig (lib/mod2_conv.rs); "different rings" is '
                           'reference identity, modelled as the uninterpreted relation same_object that core::ptr::eq is ASSUMED to '
                           'decide; the operator impls that call check_same_ring_* / panic_different_rings on mixed '
